@@ -212,6 +212,39 @@ class DynamicSlicePlugin(PrimitiveLeafPlugin):
                     _stamp_type_and_shape(slice_sizes_val, (len(slice_sizes),))
                     _ensure_value_metadata(ctx, slice_sizes_val)
 
+        # lax.dynamic_slice clamps the start indices so that the window lies inside the
+        # operand: start = clip(start, 0, operand_shape - slice_sizes)
+        operand_shape_val = ctx.builder.Shape(
+            operand_val, _outputs=[ctx.fresh_name("dyn_slice_operand_shape")]
+        )
+        operand_shape_val.type = ir.TensorType(ir.DataType.INT64)
+        _stamp_type_and_shape(operand_shape_val, (rank,))
+        _ensure_value_metadata(ctx, operand_shape_val)
+        max_start_val = ctx.builder.Sub(
+            operand_shape_val,
+            slice_sizes_val,
+            _outputs=[ctx.fresh_name("dyn_slice_max_start")],
+        )
+        max_start_val.type = ir.TensorType(ir.DataType.INT64)
+        _stamp_type_and_shape(max_start_val, (rank,))
+        _ensure_value_metadata(ctx, max_start_val)
+        starts_upper = ctx.builder.Min(
+            starts_concat,
+            max_start_val,
+            _outputs=[ctx.fresh_name("dyn_slice_starts_upper")],
+        )
+        starts_upper.type = ir.TensorType(ir.DataType.INT64)
+        _stamp_type_and_shape(starts_upper, (rank,))
+        _ensure_value_metadata(ctx, starts_upper)
+        starts_concat = ctx.builder.Max(
+            starts_upper,
+            _const_i64(ctx, [0] * rank, "dyn_slice_zero"),
+            _outputs=[ctx.fresh_name("dyn_slice_starts_clamped")],
+        )
+        starts_concat.type = ir.TensorType(ir.DataType.INT64)
+        _stamp_type_and_shape(starts_concat, (rank,))
+        _ensure_value_metadata(ctx, starts_concat)
+
         ends_val = ctx.builder.Add(
             starts_concat,
             slice_sizes_val,
